@@ -389,6 +389,36 @@ func VerifC03NestedQuick() {
 	c03Check(c03Nested("old", 1), c03Nested("new", 1))
 }
 
+// VerifC03Replace: wholesale replacements (kind changes) whose new value is a
+// complex value containing keyed objects, at top level and under a field.
+func VerifC03Replace() {
+	var old interface{}
+	switch nondet.Choice("old.kind", 4) {
+	case 0:
+		old = nil
+	case 1:
+		old = nondet.Int("old.int")
+	case 2:
+		old = map[string]interface{}{"__key": nondet.Int("old.key"), "v": nondet.Int("old.v")}
+	case 3:
+		old = c03IntArray("old.arr", 1)
+	}
+	var new interface{}
+	switch nondet.Choice("new.kind", 3) {
+	case 0:
+		new = c03KeyedArray("new", 2)
+	case 1:
+		new = map[string]interface{}{"__key": nondet.Int("new.key"), "l": c03KeyedArray("new.l", 1)}
+	case 2:
+		new = []interface{}{c03KeyedArray("new.in", 1), nondet.Int("new.i")}
+	}
+	if nondet.Choice("under-field", 2) == 1 {
+		c03Check(map[string]interface{}{"a": old}, map[string]interface{}{"a": new})
+	} else {
+		c03Check(old, new)
+	}
+}
+
 // VerifC03Self: Diff(v, v') is nil whenever v' is structurally equal to v.
 func VerifC03Self() {
 	v := c03Nested("v", 2)
